@@ -330,4 +330,156 @@ theorem c_delivered (i : SInput) : cDelivered i (modelC i) = true := by
             simp only [modelC, traceOf]; simpa using hres
           simp [this]
 
+/-! ### abort -/
+
+def stopFlag : Call × Bool → Option Bool
+  | (.ctl .stop, r) => some r
+  | _ => none
+
+theorem stops_of_calls : ∀ sec : Section,
+    (sec.map fun c => ((0, EvK.call c.1 c.2) : Ev)).filterMap stopOfMain = sec.filterMap stopFlag
+  | [] => rfl
+  | (c, r) :: sec => by
+      have ih := stops_of_calls sec
+      simp only [List.map_cons, List.filterMap_cons, ih]
+      cases c with
+      | ctl k => cases k <;> rfl
+      | time t => rfl
+      | startTest id => rfl
+      | stopTest id => rfl
+      | tags a b => rfl
+      | outcome k id => rfl
+
+theorem stops_of_other (j : Nat) : ∀ sec : Section,
+    (sec.map fun c => ((j + 1, EvK.call c.1 c.2) : Ev)).filterMap stopOfMain = []
+  | [] => rfl
+  | (c, r) :: sec => by
+      have ih := stops_of_other j sec
+      simp only [List.map_cons, List.filterMap_cons, ih]
+      rfl
+
+theorem mainStops_secEvents (p : Nat × Section) :
+    (secEvents p).filterMap stopOfMain = if p.1 = 0 then p.2.filterMap stopFlag else [] := by
+  obtain ⟨j, sec⟩ := p
+  cases j with
+  | zero =>
+    simp only [secEvents, List.filterMap_cons, List.filterMap_append, List.filterMap_nil, if_true, stops_of_calls]
+    simp [stopOfMain]
+  | succ j =>
+    simp only [secEvents, List.filterMap_cons, List.filterMap_append, List.filterMap_nil, stops_of_other]
+    simp [stopOfMain]
+
+theorem mainStops_flat : ∀ closed : List (Nat × Section),
+    (flatLog closed).filterMap stopOfMain = ((ownedBy 0 closed).flatten).filterMap stopFlag
+  | [] => by simp [flatLog, ownedBy]
+  | p :: closed => by
+      have ih := mainStops_flat closed
+      simp only [flatLog, List.map_cons, List.flatten_cons, List.filterMap_append] at ih ⊢
+      rw [mainStops_secEvents, ih]
+      obtain ⟨j, sec⟩ := p
+      by_cases hj : j = 0
+      · subst hj; simp [ownedBy]
+      · have : (j == 0) = false := by simp [hj]
+        simp [hj, ownedBy, this]
+
+theorem model_mainStops (i : SInput) : mainStops (modelC i) = ((finalC i).msecs.flatten).filterMap stopFlag := by
+  obtain ⟨closed, hlog, _, h0, _⟩ := final_log i
+  show (finalC i).base.log.filterMap stopOfMain = _
+  rw [hlog, mainStops_flat, h0]
+
+/-- the flags of the stop calls of the abort path: all fine and one per registered worker, or cut after the first that raises -/
+theorem stopSections_flags (mf : List Nat) : ∀ (n k : Nat),
+    (((stopSections mf k n).flatten.filterMap stopFlag).length = n ∧ ((stopSections mf k n).flatten.filterMap stopFlag).all (! ·) = true)
+    ∨ (1 ≤ ((stopSections mf k n).flatten.filterMap stopFlag).length ∧ ((stopSections mf k n).flatten.filterMap stopFlag).length ≤ n
+        ∧ ((stopSections mf k n).flatten.filterMap stopFlag).getLast? = some true
+        ∧ (((stopSections mf k n).flatten.filterMap stopFlag).dropLast).all (! ·) = true)
+  | 0, _ => by left; simp [stopSections]
+  | n + 1, k => by
+      simp only [stopSections]
+      split
+      · right; simp [stopFlag]
+      · rcases stopSections_flags mf n (k + 1) with ⟨h1, h2⟩ | ⟨h1, h2, h3, h4⟩
+        · left
+          simp only [List.flatten_cons, List.cons_append, List.nil_append, List.filterMap_cons, stopFlag, List.length_cons, List.all_cons]
+          exact ⟨by omega, by simpa using h2⟩
+        · right
+          simp only [List.flatten_cons, List.cons_append, List.nil_append, List.filterMap_cons, stopFlag, List.length_cons]
+          refine ⟨by omega, by omega, ?_, ?_⟩
+          · cases hl : List.filterMap stopFlag (stopSections mf (k + 1) n).flatten with
+            | nil => rw [hl] at h1; simp at h1
+            | cons a l => rw [hl] at h3; simpa [List.getLast?_cons_cons] using h3
+          · cases hl : List.filterMap stopFlag (stopSections mf (k + 1) n).flatten with
+            | nil => rw [hl] at h1; simp at h1
+            | cons a l => rw [hl] at h4; simpa [List.dropLast_cons₂] using h4
+
+theorem causeOk_eq (i : SInput) (c : Cause) : Spec.C13.causeOk i c = Conc.causeOk i c := by
+  cases c <;> rfl
+
+/-- at the end, "registered" as the spec computes it from the trace is what main's `threads` holds -/
+theorem final_registered (i : SInput) :
+    (∀ w, w ∈ registered (modelC i) ↔ w ∈ (finalC i).reg) ∧ (registered (modelC i)).length = (finalC i).reg.length := by
+  have hq := QInv_final i
+  have hmem : ∀ w, w ∈ registered (modelC i) ↔ w ∈ (finalC i).reg := by
+    intro w
+    simp only [registered, modelC, traceOf, List.mem_filter, List.mem_range, Bool.not_eq_true', List.contains_eq_mem,
+      decide_eq_false_iff_not]
+    rw [hq.reg_iff]
+    constructor
+    · rintro ⟨h1, h2⟩
+      refine ⟨h1, ?_⟩
+      intro hc
+      have := (hq.joined_iff w h1).mpr hc
+      simp [(final_done i).1] at this
+      exact h2 this
+    · rintro ⟨h1, h2⟩
+      refine ⟨h1, ?_⟩
+      intro hc
+      exact h2 ((hq.joined_iff w h1).mp (Or.inl hc))
+  refine ⟨hmem, ?_⟩
+  apply List.Perm.length_eq
+  rw [List.perm_ext_iff_of_nodup _ hq.reg_nodup]
+  · exact hmem
+  · exact List.Nodup.sublist List.filter_sublist List.nodup_range
+
+theorem c_abort (i : SInput) (hlate : (finalC i).late = []) : cAbort i (modelC i) = true := by
+  have hr := RInv_final i
+  have hdone := (final_done i).1
+  unfold cAbort
+  have hres : (modelC i).result = (finalC i).result := rfl
+  rw [hres]
+  cases hre : (finalC i).result with
+  | none => rfl
+  | some r =>
+    cases r with
+    | returned =>
+      have hcl := hr.r_clean (by simp [hdone]) (Or.inr hre)
+      simp only [Bool.and_eq_true, beq_iff_eq, List.all_eq_true, Bool.not_eq_true']
+      refine ⟨by rw [model_mainStops, hcl.1]; rfl, ?_⟩
+      intro b hb
+      exact hcl.2.1 b hb
+    | raised c =>
+      have hc := hr.r_cause c (Or.inl hre)
+      simp only [causeOk_eq, hc, Bool.true_and]
+      obtain ⟨hmem, hlen⟩ := final_registered i
+      cases hf : i.flavour with
+      | stream =>
+        simp only [List.all_eq_true]
+        intro w hw
+        have hwr := (hmem w).mp hw
+        rcases (FInv_final i).f_set c hre hf w hwr with h1 | h1
+        · show ((finalC i).flags[w]?).getD false = true
+          simp [h1]
+        · rw [hlate] at h1; cases h1
+      | suite =>
+        have hms := hr.r_msecs (Or.inr ⟨c, hre⟩) hf
+        rw [model_mainStops, hms, hlen]
+        have hfl := stopSections_flags i.mfaults (finalC i).reg.length 0
+        generalize (List.filterMap stopFlag (stopSections i.mfaults 0 (finalC i).reg.length).flatten) = L at hfl
+        rcases hfl with ⟨h1, h2⟩ | ⟨h1, h2, h3, h4⟩
+        · rw [Bool.or_eq_true]; left
+          rw [Bool.and_eq_true]; exact ⟨by simp [h1], h2⟩
+        · rw [Bool.or_eq_true]; right
+          simp only [Bool.and_eq_true, decide_eq_true_eq, beq_iff_eq]
+          exact ⟨⟨⟨h1, h2⟩, h3⟩, h4⟩
+
 end TTV.Props.C13
